@@ -1509,10 +1509,21 @@ def uni_channel_world(ctx, chan, N, MS, k, registered, nstreams=1):
     return w, Ptr("ch"), pre, cfile, ring, ring_base
 
 
+def stream_world(ctx, chan, N, MS, k, registered, nstreams=1):
+    """Uni channel (one shared ring) or Multi arc channel (one ring per listener; the ring watched for 'pending' is listener 0's)"""
+    if chan in UNI_FILES: return uni_channel_world(ctx, chan, N, MS, k, registered, nstreams=nstreams)
+    w, ch, cfile, ring = multi_channel_world(ctx, chan, N, MS, nstreams, k=k, registered=registered)
+    cf = {nm: i for i, nm in enumerate(layout.struct_fields(cfile, MULTI_FILES[chan][1]))}
+    return w, ch, w.pre, cfile, ring, (cf["channels"], 0)
+
+
+REPLAY_STREAM_KIND = {"uni_move_full_sync": "StreamUniFullSync", "uni_move_atomic": "StreamUniAtomic", "multi_arc_atomic": "StreamMultiArcAtomic", "multi_arc_full_sync": "StreamMultiArcFullSync"}
+
+
 def wake_query(ctx, name, chan, N, MS, k, producers, registered, timeout_s, slack=2):
     """producers: list of thread programs over {'send'}; one consumer task drives the stream like an executor (poll, park when Pending,
     re-poll when woken). Violation: all producers returned, the task is parked and not woken, yet an accepted event is pending."""
-    w, ch, pre, cfile, ring, ring_base = uni_channel_world(ctx, chan, N, MS, k, registered)
+    w, ch, pre, cfile, ring, ring_base = stream_world(ctx, chan, N, MS, k, registered)
     it = w.interp()
     f_send = ctx.index.method("send", cfile)
     graphs = []; vals = []
@@ -1562,7 +1573,7 @@ def wake_query(ctx, name, chan, N, MS, k, producers, registered, timeout_s, slac
             if fin and fin[-1]["res"][:1] == ["parked"] and int(fin[-1]["res"][1]) > 0:
                 return "lost wake-up: producers returned, the stream's task (%s) is parked and was not woken, %s accepted event(s) pending" % (fin[-1]["res"][2], fin[-1]["res"][1])
             return None
-        kind = {"uni_move_full_sync": "StreamUniFullSync", "uni_move_atomic": "StreamUniAtomic"}[chan] + ("Parked" if registered else "Fresh") + ":%d:1" % MS
+        kind = REPLAY_STREAM_KIND[chan] + ("Parked" if registered else "Fresh") + ":%d:1" % MS
         found, why, tried = replay.search(kind, N, [inp["origin"]], prefill_vals, progs, [], segs, symptom, max_runs=250)
         rec["native_runs"] = tried
         if found: rec.update(verdict="violation", symptom=found["symptom"], replayed=True, native_history=found["history"].get("events", []), native_segments=found["segments"])
@@ -1582,6 +1593,11 @@ def _c04_registry(add, tier, TO):
     q("c04_atomic_parked_vs_reserved_ms1", "quick", "uni_move_atomic", 2, 1, 0, [["reserved"]], True)
     q("c04_atomic_parked_vs_reserved_ms2", "quick", "uni_move_atomic", 2, 2, 0, [["reserved"]], True)
     q("c04_atomic_parked_vs_send_ms2", "quick", "uni_move_atomic", 2, 2, 0, [["send"]], True)
+    q("c04_multi_arc_atomic_first_park_vs_send", "quick", "multi_arc_atomic", 2, 1, 0, [["send"]], False)
+    q("c04_multi_arc_atomic_parked_vs_send", "quick", "multi_arc_atomic", 2, 1, 0, [["send"]], True)
+    q("c04_multi_arc_full_sync_parked_vs_send", "quick", "multi_arc_full_sync", 2, 1, 0, [["send"]], True)
+    q("c04_multi_arc_atomic_parked_k2_vs_send_n4", "quick", "multi_arc_atomic", 4, 1, 2, [["send"]], True)
+    q("c04_multi_arc_full_sync_parked_k2_vs_send_n4", "thorough", "multi_arc_full_sync", 4, 1, 2, [["send"]], True)
     q("c04_full_sync_parked_vs_two_producers", "thorough", "uni_move_full_sync", 2, 1, 0, [["send"], ["send"]], True)
     q("c04_atomic_parked_vs_three_sends_n4", "thorough", "uni_move_atomic", 4, 1, 0, [["send", "send", "send"]], True)
 
@@ -1603,11 +1619,11 @@ def cancel_query(ctx, name, chan, N, MS, nstreams, k, cancel, producers, registe
        producers: list of programs over {'send'} (concurrent with the cancel request)
     Violation: the canceller (and all producers) returned, yet a TARGETED stream's task is parked and un-woken (it will never answer
     end-of-stream); or a panic / invalid access. Targeted tasks that return have answered `None` (drive() returns only then)."""
-    w, ch, pre, cfile, ring, ring_base = uni_channel_world(ctx, chan, N, MS, k, registered, nstreams=nstreams)
+    w, ch, pre, cfile, ring, ring_base = stream_world(ctx, chan, N, MS, k, registered, nstreams=nstreams)
     it = w.interp()
     f_send = ctx.index.method("send", cfile)
     graphs = []; vals = []
-    cf = {nm: i for i, nm in enumerate(layout.struct_fields(cfile, UNI_FILES[chan][1]))}
+    cf = {nm: i for i, nm in enumerate(layout.struct_fields(cfile, (UNI_FILES.get(chan) or MULTI_FILES[chan])[1]))}
     if cancel[0] == "all":
         graphs.append(build_thread(it, 0, [(ctx.index.method("cancel_all_streams", cfile), [ch], "cancel_all")], w.mem)); targeted = list(range(nstreams))
     else:
@@ -1657,7 +1673,7 @@ def cancel_query(ctx, name, chan, N, MS, nstreams, k, cancel, producers, registe
                 hung_ = [x for x in fin[-1]["res"][2].split(",") if x.isdigit() and int(x) in targeted]
                 if hung_: return "cancelled stream(s) %s never answer end-of-stream: the cancel request returned, the task is parked and was not woken" % ",".join(hung_)
             return None
-        kind = {"uni_move_full_sync": "StreamUniFullSync", "uni_move_atomic": "StreamUniAtomic"}[chan] + ("Parked" if registered else "Fresh") + ":%d:%d" % (MS, nstreams)
+        kind = REPLAY_STREAM_KIND[chan] + ("Parked" if registered else "Fresh") + ":%d:%d" % (MS, nstreams)
         found, why, tried = replay.search(kind, N, [inp["origin"]], prefill_vals, progs, [], segs, symptom, max_runs=250)
         rec["native_runs"] = tried
         if found: rec.update(verdict="violation", symptom=found["symptom"], replayed=True, native_history=found["history"].get("events", []), native_segments=found["segments"])
@@ -1673,6 +1689,8 @@ def _c07_registry(add, tier, TO):
     q("c07_full_sync_cancel_all_vs_first_poll", "quick", "uni_move_full_sync", 2, 1, 1, 0, ("all",), [], False)
     q("c07_atomic_cancel_one_of_two", "quick", "uni_move_atomic", 2, 2, 2, 0, ("one", 1), [], False)
     q("c07_atomic_cancel_all_vs_send", "quick", "uni_move_atomic", 2, 1, 1, 0, ("all",), [["send"]], False)
+    q("c07_multi_arc_atomic_cancel_all_vs_first_poll", "quick", "multi_arc_atomic", 2, 1, 1, 0, ("all",), [], False)
+    q("c07_multi_arc_atomic_cancel_all_vs_parked_k1", "quick", "multi_arc_atomic", 2, 1, 1, 1, ("all",), [], True)
     q("c07_atomic_cancel_all_two_streams", "thorough", "uni_move_atomic", 2, 2, 2, 1, ("all",), [], False)
     q("c07_full_sync_cancel_all_vs_send_parked", "thorough", "uni_move_full_sync", 2, 1, 1, 0, ("all",), [["send"]], True)
     q("c07_full_sync_cancel_one_of_two_parked", "thorough", "uni_move_full_sync", 2, 2, 2, 0, ("one", 0), [], True)
@@ -1684,7 +1702,7 @@ MULTI_FILES = {"multi_arc_atomic": ("src/multi/channels/arc/atomic.rs", "Atomic"
                "multi_arc_full_sync": ("src/multi/channels/arc/full_sync.rs", "FullSync", "FullSyncMove")}
 
 
-def multi_channel_world(ctx, chan, N, MS, nlisteners):
+def multi_channel_world(ctx, chan, N, MS, nlisteners, k=0, registered=False):
     """Multi channel with `nlisteners` listeners (stream ids 0..nlisteners-1), every per-listener queue empty, origin any u32 (shared
     by all rings -- they are created together)"""
     cfile, cstruct, ring = MULTI_FILES[chan]
@@ -1695,12 +1713,18 @@ def multi_channel_world(ctx, chan, N, MS, nlisteners):
     fixed = os.environ.get("VERIF_M_ORIGIN")
     if fixed is not None: w.inputs["origin"] = origin = BV(32, int(fixed, 0))
     cf = {nm: i for i, nm in enumerate(layout.struct_fields(cfile, cstruct))}
+    w.pre = [w.sym("pre%d" % i) for i in range(k)]        # every listener's queue holds the same k events (they were fanned out to all)
     for j in range(MS):
-        if ring == "AtomicMove": w.atomic_move("ch", (cf["channels"], j), N, origin, [])
-        else: w.full_sync_move("ch", (cf["channels"], j), N, origin, [])
+        content = w.pre if j < nlisteners else []
+        if ring == "AtomicMove": w.atomic_move("ch", (cf["channels"], j), N, origin, content)
+        else: w.full_sync_move("ch", (cf["channels"], j), N, origin, content)
     sf = {nm: i for i, nm in enumerate(w.fields("StreamsManagerBase"))}
     sm = (cf["streams_manager"],)
-    w.decl("ch", sm + (sf["wakers"], "*"), "array", z3.BitVecSort(8), [BV(8, 0) for j in range(MS)], n=MS)
+    w.decl("ch", sm + (sf["wakers"], "*"), "array", z3.BitVecSort(8), [BV(8, (j + 1) if (registered and j < nlisteners) else 0) for j in range(MS)], n=MS)
+    mf = {nm: i for i, nm in enumerate(layout.struct_fields("src/mutiny_stream.rs", "MutinyStream"))}
+    for i in range(nlisteners):
+        w.decl("st%d" % i, (mf["stream_id"],), "frozen", None, value=BV(32, i))
+        w.decl("st%d" % i, (mf["events_source"],), "frozen", None, value=Ptr("ch"))
     w.mem[("ch", sm + (sf["wakers"], "*"))]["codec"] = "opt_waker"
     w.decl("ch", sm + (sf["wakers_lock"],), "atomic", z3.BoolSort(), z3.BoolVal(False))
     w.decl("ch", sm + (sf["keep_streams_running"], "*"), "array", z3.BoolSort(), [z3.BoolVal(j < nlisteners) for j in range(MS)], n=MS)
